@@ -50,6 +50,7 @@ type resObs struct {
 	MsKnown    bool   `json:"ms_known"`    // the client cache holds a session after this connection
 	MsSameSid  bool   `json:"ms_same_sid"` // ... whose master secret is the one of the full handshake with this sid
 	SrvSawCert bool   `json:"srv_saw_cert"`
+	CliPeers   int    `json:"cli_peers"` // certificates of the server as the client reports them
 	DataOK     bool   `json:"data_ok"`
 }
 
@@ -61,6 +62,8 @@ func tlsOrGM(proto string) map[string]uint16 {
 }
 
 func runHistory(ops []resOp, proto string, capN int) ([]resObs, error) {
+	gcfc := strings.HasSuffix(proto, "+gcfc")
+	proto = strings.TrimSuffix(proto, "+gcfc")
 	f, err := loadFixtures()
 	if err != nil {
 		return nil, err
@@ -167,57 +170,75 @@ func runHistory(ops []resOp, proto string, capN int) ([]resObs, error) {
 			} else if op.Vers == 12 {
 				cvers = gmtls.VersionTLS12
 			}
-			var sc, cc *gmtls.Config
-			if proto == "auto_gm" || proto == "auto_tls" {
-				// the auto-switch server of the documentation, serving whichever protocol the client speaks
-				sig, enc, rsaC := f.sig, f.enc, f.rsa
-				var err error
-				if sc, err = gmtls.NewBasicAutoSwitchConfig(&sig, &enc, &rsaC); err != nil {
-					return nil, err
-				}
-				if proto == "auto_gm" {
+			build := func() (sc, cc *gmtls.Config, err error) {
+				if proto == "auto_gm" || proto == "auto_tls" {
+					// the auto-switch server of the documentation, serving whichever protocol the client speaks
+					sig, enc, rsaC := f.sig, f.enc, f.rsa
+					var err error
+					if sc, err = gmtls.NewBasicAutoSwitchConfig(&sig, &enc, &rsaC); err != nil {
+						return nil, nil, err
+					}
+					if proto == "auto_gm" {
+						cc = &gmtls.Config{GMSupport: &gmtls.GMSupport{}, InsecureSkipVerify: true}
+						if ccert {
+							cc.Certificates = []gmtls.Certificate{f.auth}
+						}
+					} else {
+						cc = &gmtls.Config{InsecureSkipVerify: true, MaxVersion: cvers}
+						if ccert {
+							cc.Certificates = []gmtls.Certificate{f.rsaAuth}
+						}
+					}
+					both := x509.NewCertPool()
+					for _, n := range []string{"SM2_CA.cer", "RSA_CA.cer"} {
+						b, _ := os.ReadFile(certPath(n))
+						both.AppendCertsFromPEM(b)
+					}
+					sc.ClientCAs = both
+				} else if proto == "gm" {
+					sc = &gmtls.Config{GMSupport: &gmtls.GMSupport{}, Certificates: []gmtls.Certificate{f.sig, f.enc}}
 					cc = &gmtls.Config{GMSupport: &gmtls.GMSupport{}, InsecureSkipVerify: true}
 					if ccert {
 						cc.Certificates = []gmtls.Certificate{f.auth}
 					}
+					sc.ClientCAs = f.sm2CA
 				} else {
+					sc = &gmtls.Config{Certificates: []gmtls.Certificate{f.rsa}}
 					cc = &gmtls.Config{InsecureSkipVerify: true, MaxVersion: cvers}
 					if ccert {
 						cc.Certificates = []gmtls.Certificate{f.rsaAuth}
 					}
+					sc.ClientCAs = f.rsaCA
 				}
-				both := x509.NewCertPool()
-				for _, n := range []string{"SM2_CA.cer", "RSA_CA.cer"} {
-					b, _ := os.ReadFile(certPath(n))
-					both.AppendCertsFromPEM(b)
+				sc.CipherSuites = pick(ssuites)
+				sc.SessionTicketsDisabled = disabled
+				switch cauth {
+				case "request":
+					sc.ClientAuth = gmtls.RequestClientCert
+				case "requireany":
+					sc.ClientAuth = gmtls.RequireAnyClientCert
+				case "verifyifgiven":
+					sc.ClientAuth = gmtls.VerifyClientCertIfGiven
+				case "require":
+					sc.ClientAuth = gmtls.RequireAndVerifyClientCert
 				}
-				sc.ClientCAs = both
-			} else if proto == "gm" {
-				sc = &gmtls.Config{GMSupport: &gmtls.GMSupport{}, Certificates: []gmtls.Certificate{f.sig, f.enc}}
-				cc = &gmtls.Config{GMSupport: &gmtls.GMSupport{}, InsecureSkipVerify: true}
-				if ccert {
-					cc.Certificates = []gmtls.Certificate{f.auth}
-				}
-				sc.ClientCAs = f.sm2CA
-			} else {
-				sc = &gmtls.Config{Certificates: []gmtls.Certificate{f.rsa}}
-				cc = &gmtls.Config{InsecureSkipVerify: true, MaxVersion: cvers}
-				if ccert {
-					cc.Certificates = []gmtls.Certificate{f.rsaAuth}
-				}
-				sc.ClientCAs = f.rsaCA
+				return sc, cc, nil
 			}
-			sc.CipherSuites = pick(ssuites)
-			sc.SessionTicketsDisabled = disabled
-			switch cauth {
-			case "request":
-				sc.ClientAuth = gmtls.RequestClientCert
-			case "require":
-				sc.ClientAuth = gmtls.RequireAndVerifyClientCert
+			sc, cc, err := build()
+			if err != nil {
+				return nil, err
 			}
 			var kk [][32]byte
 			for _, id := range keys {
 				kk = append(kk, keyBytes(id))
+			}
+			if gcfc {
+				// every connection is served by a fresh Config handed out by GetConfigForClient; it has no ticket keys of
+				// its own and must follow the front configuration's (rotations included)
+				sc.GetConfigForClient = func(*gmtls.ClientHelloInfo) (*gmtls.Config, error) {
+					inner, _, err := build()
+					return inner, err
+				}
 			}
 			sc.SetSessionTicketKeys(kk)
 			cc.CipherSuites = pick(csuites)
@@ -247,6 +268,7 @@ func runHistory(ops []resOp, proto string, capN int) ([]resObs, error) {
 					}
 				}
 				o.SrvSawCert = len(ss.PeerCertificates) > 0
+				o.CliPeers = len(cs.PeerCertificates)
 				if o.Complete {
 					if p := recoverStr(func() {
 						e1, x1 := cs.ExportKeyingMaterial("verif", nil, 32)
